@@ -93,7 +93,16 @@ func (c nextCase) String() string {
 // search, plus "strictly after t" and Next(Next(t)-1ns) == Next(t).
 func TestNextRapid(t *testing.T) {
 	sec := vk.Sec(t.Name())
-	vk.Check(t, 60000, 3200000, func(rt *rapid.T) {
+	vk.Check(t, 60000, 3200000, nextProp(sec))
+}
+
+// FuzzNext drives the same property with Go's coverage-guided fuzzer (the fuzz input is rapid's bit stream): thorough tier.
+func FuzzNext(f *testing.F) {
+	f.Fuzz(rapid.MakeFuzz(nextProp(vk.Sec("FuzzNext"))))
+}
+
+func nextProp(sec *vk.Section) func(rt *rapid.T) {
+	return func(rt *rapid.T) {
 		o := genOpt(rt)
 		e := genExpr(rt, o)
 		text := e.text()
@@ -179,7 +188,7 @@ func TestNextRapid(t *testing.T) {
 			sec.Case(nt, vk.FP(text, o.name, e.zone.name, at.class), classes...)
 			sec.Sample(func() any { return fmt.Sprintf("%s -> %s", c, fmtT(got)) })
 		}
-	})
+	}
 }
 
 // ---------------------------------------------------------------- @every
